@@ -3,7 +3,9 @@
 
   Transcribed from: amm.rs, liquidity_pool.rs, fee.rs, contexts/base.rs (StorageCache =
   "read at start, write at end"), pair_actions/{add_liq,initial_liq,remove_liq,swap,views}.rs,
-  safe_price.rs (the observation update every operation performs first).
+  safe_price.rs (the observation update every operation performs first),
+  locking_wrapper.rs + contexts/output_builder.rs (swap output locked through simple-lock while
+  `epoch < locking_deadline_epoch`; simple-lock's `lockTokens` from locked-asset/simple-lock).
 
   A failed transaction is `none` (state unchanged by atomicity).  Every `require!`,
   every checked `BigUint` subtraction and every ESDT balance debit is an explicit guard.
@@ -28,6 +30,16 @@ inductive Dir | ab | ba
 
 /-- token a fee destination asks for: a pool token or a third token `C`. -/
 inductive Want | first | second | other
+  deriving DecidableEq, Repr
+
+/-- what `locking_sc_address` (locking_wrapper.rs) points at: nothing yet, the simple-lock
+    contract, or some other contract (which has no `lockTokens` endpoint). -/
+inductive LockSc | unset | simpleLock | other
+  deriving DecidableEq, Repr
+
+/-- the argument of `setLockingScAddress`: the simple-lock contract, another smart contract,
+    or an address that is not a smart contract at all. -/
+inductive LockAddr | simpleLock | otherSc | notSc
   deriving DecidableEq, Repr
 
 /-- A trusted external pair `(poolToken, C)` as seen from this pair: it is only ever called
@@ -112,14 +124,33 @@ structure St where
   ext2 : Nat
   sp : SP
   round : Nat
+  /-- `locking_deadline_epoch`: swap outputs are locked while `epoch < lockDeadline` -/
+  lockDeadline : Nat
+  /-- `unlock_epoch` handed to simple-lock's `lockTokens` -/
+  lockUnlockEpoch : Nat
+  /-- `locking_sc_address` -/
+  lockSc : LockSc
+  /-- block epoch -/
+  epoch : Nat
+  /-- pool tokens held by the simple-lock contract: the backing of the LOCKED tokens it
+      minted for swap outputs (ghost, observed on the real contract) -/
+  slk1 : Nat
+  slk2 : Nat
   deriving DecidableEq, Repr
 
-/-- results of an operation; meaning per operation documented at each `def`. -/
+/-- results of an operation; meaning per operation documented at each `def`.
+    `locked` (swaps only): the `v1` units of the output token were delivered to the caller as
+    LOCKED tokens minted by simple-lock (`true`) or as the plain token (`false`). -/
 structure Out where
   v1 : Nat := 0
   v2 : Nat := 0
   v3 : Nat := 0
+  locked : Bool := false
   deriving DecidableEq, Repr
+
+/-- amount of the output token a swap's caller receives as the plain token / as LOCKED tokens -/
+def Out.plainAmt (o : Out) : Nat := if o.locked then 0 else o.v1
+def Out.lockedAmt (o : Out) : Nat := if o.locked then o.v1 else 0
 
 def St.feeOn (s : St) : Bool := !s.dests.isEmpty || s.cut.isSome
 
@@ -190,6 +221,18 @@ def St.addExtIn (s : St) (d : Dir) (x : Nat) : St :=
   | .ab => { s with ext1 := s.ext1 + x }
   | .ba => { s with ext2 := s.ext2 + x }
 def St.addExtOut (s : St) (d : Dir) (x : Nat) : St := s.addExtIn d.flip x
+
+/-- simple-lock's holdings of the input / output token of direction `d` -/
+def St.slkIn (s : St) : Dir → Nat
+  | .ab => s.slk1
+  | .ba => s.slk2
+def St.slkOut (s : St) : Dir → Nat
+  | .ab => s.slk2
+  | .ba => s.slk1
+def St.addSlkOut (s : St) (d : Dir) (x : Nat) : St :=
+  match d with
+  | .ab => { s with slk2 := s.slk2 + x }
+  | .ba => { s with slk1 := s.slk1 + x }
 
 /-- trusted pair for the input / output pool token of direction `d`. -/
 def St.xIn (s : St) : Dir → Option XPool
@@ -286,6 +329,26 @@ def St.sendFee (s : St) (d : Dir) (fee : Nat) : Option St :=
   if slice = 0 then pure s else
   s.feeSlices d slice s.dests
 
+/-! ### locking_wrapper.rs / output_builder.rs `build_swap_output_payments` -/
+
+/-- `should_generate_locked_asset` -/
+def St.lockOn (s : St) : Bool := decide (s.epoch < s.lockDeadline)
+
+/-- the swap output reaches the caller as LOCKED tokens: locking is on and simple-lock does
+    not hand the payment straight back (`lock_tokens`: `current_epoch >= unlock_epoch`) -/
+def St.locksOut (s : St) : Bool := s.lockOn && decide (s.epoch < s.lockUnlockEpoch)
+
+/-- first output payment of a swap: while locking is on, `out` of the output token goes to
+    simple-lock's `lockTokens(unlock_epoch)` (the proxy call aborts when the locking address is
+    unset or is a contract without that endpoint); simple-lock keeps the tokens and mints the
+    same amount of LOCKED tokens, or returns the payment untouched when the unlock epoch has
+    been reached.  Returns the new state and whether the caller gets LOCKED tokens. -/
+def St.lockOut (s : St) (d : Dir) (out : Nat) : Option (St × Bool) :=
+  if s.lockOn then do
+    req (s.lockSc = .simpleLock)
+    if s.epoch < s.lockUnlockEpoch then pure (s.addSlkOut d out, true) else pure (s, false)
+  else pure (s, false)
+
 /-! ### endpoints -/
 
 /-- `pool_add_initial_liquidity` shared by `addInitialLiquidity` and the first `addLiquidity` -/
@@ -303,7 +366,7 @@ def addInitial (s : St) (c a1 a2 : Nat) : Option (St × Out) := do
   req (s.status = .inactive)
   req (s.S = 0)
   let (s, lp) ← s.firstMint a1 a2
-  pure ({ s with status := .partialActive }, ⟨lp, a1, a2⟩)
+  pure ({ s with status := .partialActive }, ⟨lp, a1, a2, false⟩)
 
 /-- `set_optimal_amounts` for `S ≠ 0` -/
 def optimal (s : St) (a1 a2 m1 m2 : Nat) : Option (Nat × Nat) := do
@@ -328,7 +391,7 @@ def addLiq (s : St) (a1 a2 m1 m2 : Nat) : Option (St × Out) := do
   if s.S = 0 then do
     let (s1, lp) ← s0.firstMint a1 a2
     req (k0 ≤ s1.r1 * s1.r2)
-    pure (s1, ⟨lp, a1, a2⟩)
+    pure (s1, ⟨lp, a1, a2, false⟩)
   else do
     req (s.r1 ≠ 0 ∧ s.r2 ≠ 0)       -- BigUint division by zero aborts
     let (o1, o2) ← optimal s a1 a2 m1 m2
@@ -338,7 +401,7 @@ def addLiq (s : St) (a1 a2 m1 m2 : Nat) : Option (St × Out) := do
     let r2' := s.r2 + o2
     req (k0 ≤ r1' * r2')
     pure ({ s0 with S := s.S + liq, r1 := r1', r2 := r2', lpCirc := s.lpCirc + liq,
-                    bal1 := s.bal1 + o1, bal2 := s.bal2 + o2 }, ⟨liq, o1, o2⟩)
+                    bal1 := s.bal1 + o1, bal2 := s.bal2 + o2 }, ⟨liq, o1, o2, false⟩)
 
 /-- `get_amounts_removed` -/
 def amountsRemoved (s : St) (lp m1 m2 : Nat) : Option (Nat × Nat) := do
@@ -365,7 +428,7 @@ def removeLiq (s : St) (lp m1 m2 : Nat) : Option (St × Out) := do
   let b1 ← sub? s.bal1 x1
   let b2 ← sub? s.bal2 x2
   pure ({ s0 with S := s.S - lp, r1 := s.r1 - x1, r2 := s.r2 - x2, lpCirc := c,
-                  bal1 := b1, bal2 := b2 }, ⟨x1, x2, 0⟩)
+                  bal1 := b1, bal2 := b2 }, ⟨x1, x2, 0, false⟩)
 
 /-- `removeLiquidityAndBuyBackAndBurnToken(w)` by whitelisted caller `c` paying `lp`:
     Out = (x1, x2) removed from the reserves (routed like fee slices, nothing to the caller) -/
@@ -378,7 +441,7 @@ def buyback (s : St) (c lp : Nat) (w : Want) : Option (St × Out) := do
   let s1 := { s0 with S := s.S - lp, r1 := s.r1 - x1, r2 := s.r2 - x2, lpCirc := cc }
   let s2 ← s1.feeSlice .ab x1 w
   let s3 ← s2.feeSlice .ba x2 w
-  pure (s3, ⟨x1, x2, 0⟩)
+  pure (s3, ⟨x1, x2, 0, false⟩)
 
 /-- `swapNoFeeAndForward` by whitelisted caller `c` paying `a` of direction `d`'s input:
     Out = (amount bought and burned) -/
@@ -392,9 +455,10 @@ def swapNoFee (s : St) (c : Nat) (d : Dir) (a : Nat) : Option (St × Out) := do
   req (k0 ≤ s1.r1 * s1.r2)
   let s2 := s1.setBal d (s1.balIn d + a) (s1.balOut d)
   let s3 ← s2.debitOut d out
-  pure (s3.addBurnOut d out, ⟨out, 0, 0⟩)
+  pure (s3.addBurnOut d out, ⟨out, 0, 0, false⟩)
 
-/-- `swapTokensFixedInput(tokenOut, minOut)` paying `a`: Out = (out) sent to the caller -/
+/-- `swapTokensFixedInput(tokenOut, minOut)` paying `a`: Out = (out) sent to the caller,
+    `locked` = as LOCKED tokens -/
 def swapIn (s : St) (d : Dir) (a minOut : Nat) : Option (St × Out) := do
   req (0 < minOut)
   req (0 < a)
@@ -412,11 +476,12 @@ def swapIn (s : St) (d : Dir) (a minOut : Nat) : Option (St × Out) := do
   req (k0 ≤ s1.r1 * s1.r2)
   let s2 := s1.setBal d (s1.balIn d + a) (s1.balOut d)
   let s3 ← s2.sendFee d fee
-  let s4 ← s3.debitOut d out
-  pure (s4, ⟨out, 0, 0⟩)
+  let (s4, lk) ← s3.lockOut d out
+  let s5 ← s4.debitOut d out
+  pure (s5, ⟨out, 0, 0, lk⟩)
 
 /-- `swapTokensFixedOutput(tokenOut, out)` paying `maxIn`:
-    Out = (out sent, charged, refund = maxIn − charged) -/
+    Out = (out sent, charged, refund = maxIn − charged), `locked` = `out` came as LOCKED tokens -/
 def swapOut (s : St) (d : Dir) (maxIn out : Nat) : Option (St × Out) := do
   req (0 < out)
   req (0 < maxIn)
@@ -434,8 +499,9 @@ def swapOut (s : St) (d : Dir) (maxIn out : Nat) : Option (St × Out) := do
   req (k0 ≤ s1.r1 * s1.r2)
   let s2 := s1.setBal d (s1.balIn d + ain) (s1.balOut d)
   let s3 ← s2.sendFee d fee
-  let s4 ← s3.debitOut d out
-  pure (s4, ⟨out, ain, maxIn - ain⟩)
+  let (s4, lk) ← s3.lockOut d out
+  let s5 ← s4.debitOut d out
+  pure (s5, ⟨out, ain, maxIn - ain, lk⟩)
 
 /-! ### views (pair_actions/views.rs) -/
 
@@ -498,6 +564,26 @@ def cfg (s : St) : CfgOp → Option St
   | .setTrusted true x => pure { s with x1 := x }
   | .setTrusted false x => pure { s with x2 := x }
 
+/-- the owner-only setters of locking_wrapper.rs (`require_caller_has_owner_permissions`) -/
+inductive LockOp
+  | setDeadline (e : Nat)          -- setLockingDeadlineEpoch
+  | setUnlock (e : Nat)            -- setUnlockEpoch
+  | setSc (a : LockAddr)           -- setLockingScAddress (`is_smart_contract` required)
+  deriving DecidableEq, Repr
+
+/-- `owner` = the caller has owner permissions -/
+def lockCfg (s : St) (owner : Bool) : LockOp → Option St
+  | .setDeadline e => do
+      req (owner = true)
+      pure { s with lockDeadline := e }
+  | .setUnlock e => do
+      req (owner = true)
+      pure { s with lockUnlockEpoch := e }
+  | .setSc a => do
+      req (owner = true)
+      req (a ≠ .notSc)
+      pure { s with lockSc := if a = .simpleLock then .simpleLock else .other }
+
 /-! ### the state machine -/
 
 inductive Op
@@ -510,6 +596,8 @@ inductive Op
   | buyback (c lp : Nat) (w : Want)
   | cfg (o : CfgOp)
   | advance (round : Nat)
+  | lock (owner : Bool) (o : LockOp)
+  | epoch (e : Nat)
   deriving DecidableEq, Repr
 
 def step (s : St) : Op → Option (St × Out)
@@ -522,17 +610,20 @@ def step (s : St) : Op → Option (St × Out)
   | .buyback c lp w => buyback s c lp w
   | .cfg o => (cfg s o).map (·, {})
   | .advance r => if s.round ≤ r then some ({ s with round := r }, {}) else none
+  | .lock ow o => (lockCfg s ow o).map (·, {})
+  | .epoch e => if s.epoch ≤ e then some ({ s with epoch := e }, {}) else none
 
 /-- the state after a history: failed transactions leave the state unchanged. -/
 def run (s : St) (ops : List Op) : St :=
   ops.foldl (fun s o => match step s o with | some (s', _) => s' | none => s) s
 
-/-- a freshly deployed pair (`init`: state Inactive, nothing minted). -/
+/-- a freshly deployed pair (`init`: state Inactive, nothing minted, output locking off). -/
 def init (total special : Nat) (adder : Option Nat) (cap : Nat) : St :=
   { status := .inactive, total := total, special := special, dests := [], cut := none,
     adder := adder, wl := [], r1 := 0, r2 := 0, S := 0, bal1 := 0, bal2 := 0,
     lpCirc := 0, lpOwn := 0, x1 := none, x2 := none,
     coll1 := 0, coll2 := 0, burn1 := 0, burn2 := 0, ext1 := 0, ext2 := 0,
-    sp := ⟨[], 0, cap⟩, round := 0 }
+    sp := ⟨[], 0, cap⟩, round := 0,
+    lockDeadline := 0, lockUnlockEpoch := 0, lockSc := .unset, epoch := 0, slk1 := 0, slk2 := 0 }
 
 end Mx.Pair
